@@ -1,9 +1,10 @@
 """C12"""
 PROPERTY = "C12"
 LEVEL = "proof"
-FUNCTIONS = []
+FUNCTIONS = ['uxarray.remap.nearest_neighbor._nearest_neighbor@rank1',
+    'uxarray.remap.nearest_neighbor._nearest_neighbor@rank2']
 STANDINS = ["remapping"]
 ASSUMPTIONS = []
 EXPLANATION = ""
-LEVEL_TEXT = 'bounded stand-in only: nearest neighbour vs brute-force great circle, identity on own elements, IDW convexity/monotonicity via one-hot fields'
-LEVEL_NOTE = 'no function under contract yet'
+LEVEL_TEXT = '_nearest_neighbor proved (rank 1 and 2): every destination value is the value of one in-range source element for the same leading index (no invented values), given the neighbour search as an assumed contract; the neighbour search itself, identity on own elements and IDW convexity/monotonicity are bounded (brute-force great circle, one-hot fields)'
+LEVEL_NOTE = '_remap_grid_parse (sklearn tree, element-kind selection) assumed: returns in-range indices; single destination point excluded (recorded finding); IDW arithmetic not under contract'
